@@ -2891,6 +2891,30 @@ static Node *struct_ref(Node *node, Token *tok) {
 // Convert A++ to `(typeof A)((A += 1) - 1)`
 static Node *new_inc_dec(Node *node, Token *tok, int addend) {
   add_type(node);
+
+  // (A += 1) - 1 is not the old value of A if the addition rounds or
+  // saturates, which it can for floating types and _Bool. Convert A++
+  // to `tmp1 = &A, tmp2 = *tmp1, *tmp1 = tmp2 + 1, tmp2` for these.
+  if ((is_flonum(node->ty) || node->ty->kind == TY_BOOL) && !node->ty->is_atomic &&
+      !(node->kind == ND_MEMBER && node->member->is_bitfield)) {
+    Obj *addr = new_lvar("", pointer_to(node->ty));
+    Obj *old = new_lvar("", node->ty);
+
+    Node *expr1 = new_binary(ND_ASSIGN, new_var_node(addr, tok),
+                             new_unary(ND_ADDR, node, tok), tok);
+    Node *expr2 = new_binary(ND_ASSIGN, new_var_node(old, tok),
+                             new_unary(ND_DEREF, new_var_node(addr, tok), tok), tok);
+    Node *expr3 = new_binary(ND_ASSIGN,
+                             new_unary(ND_DEREF, new_var_node(addr, tok), tok),
+                             new_add(new_var_node(old, tok), new_num(addend, tok), tok),
+                             tok);
+    return new_binary(ND_COMMA, expr1,
+                      new_binary(ND_COMMA, expr2,
+                                 new_binary(ND_COMMA, expr3, new_var_node(old, tok), tok),
+                                 tok),
+                      tok);
+  }
+
   return new_cast(new_add(to_assign(new_add(node, new_num(addend, tok), tok)),
                           new_num(-addend, tok), tok),
                   node->ty);
